@@ -703,6 +703,64 @@ var bidPool = []bid{
 	{hash32(0xa1), 1, hash32(0xb2)},
 }
 
+// block ids of every shape (hash empty / non-empty x part-set header zero / non-zero); all of
+// them pass BlockID.ValidateBasic, only the last one is the nil block id
+var bidShapes = []bid{
+	{nil, 1, hash32(0xb1)},
+	{nil, 0, hash32(0xb1)},
+	{nil, 3, nil},
+	{nil, 1, hash32(0xb2)},
+	{hash32(0xa1), 0, nil},
+	{hash32(0xa1), 0, hash32(0xb1)},
+	{hash32(0xa1), 1, nil},
+	{},
+}
+
+func pickBid(r *rand.Rand) bid {
+	if r.Intn(5) == 0 {
+		return bidShapes[r.Intn(len(bidShapes))]
+	}
+	return bidPool[r.Intn(len(bidPool))]
+}
+
+// relabelSigned rewrites what the slots' signatures were really made over, keeping the flags:
+// nil-vote signatures under the for-block flag, block signatures under the nil flag, signatures
+// over a block id that shares only some parts with the commit's
+func relabelSigned(r *rand.Rand, slots []slot, b bid) {
+	k := r.Intn(16)
+	for i := range slots {
+		d := &slots[i].d
+		if d.tag != "V" {
+			continue
+		}
+		switch {
+		case k < 8 && slots[i].flag == 2:
+			d.b = bid{}
+		case k >= 8 && k < 11 && slots[i].flag == 3:
+			d.b = b
+		case k == 11 && slots[i].flag == 2:
+			d.b = bid{nil, b.total, b.pshash}
+		case k == 12 && slots[i].flag == 2:
+			d.b = bid{b.hash, 0, nil}
+		case k == 13 && slots[i].flag == 2:
+			d.b = bid{b.hash, b.total, nil}
+		case k >= 14:
+			d.b = bidShapes[r.Intn(len(bidShapes))]
+		}
+		if !d.b.valid() {
+			d.b = bid{}
+		}
+	}
+	switch {
+	case k < 8:
+		note(mutHist, "all for-block slots really signed NIL")
+	case k < 11:
+		note(mutHist, "nil-flagged slots really signed the block")
+	default:
+		note(mutHist, "slots signed a block id sharing only parts / of another shape")
+	}
+}
+
 const ts0 = int64(1600000000) * 1000000000
 
 func pickTS(r *rand.Rand) int64 {
@@ -886,7 +944,7 @@ func genCase(r *rand.Rand, maxN int) core.Case {
 	}
 	h := []int64{1, 2, 5, 1 << 40}[r.Intn(4)]
 	rd := int32(r.Intn(2))
-	b := bidPool[r.Intn(len(bidPool))]
+	b := pickBid(r)
 	switch r.Intn(40) {
 	case 0:
 		b = bid{} // zero block id
@@ -942,6 +1000,10 @@ func genCase(r *rand.Rand, maxN int) core.Case {
 		}
 	}
 
+	if r.Intn(7) == 0 || (len(b.hash) == 0 && r.Intn(2) == 0) {
+		relabelSigned(r, slots, b)
+	}
+
 	// mutations of the property's quantifier
 	nm := []int{0, 0, 0, 0, 1, 1, 1, 2, 3}[r.Intn(9)]
 	for k := 0; k < nm && len(slots) > 0; k++ {
@@ -986,7 +1048,7 @@ func genCase(r *rand.Rand, maxN int) core.Case {
 			s.d.r += int32(1 + r.Intn(2))
 		case 10:
 			name = "signed other block"
-			s.d.b = bidPool[r.Intn(len(bidPool))]
+			s.d.b = pickBid(r)
 		case 11:
 			name = "signed nil block"
 			s.d.b = bid{}
@@ -1079,7 +1141,7 @@ func genCase(r *rand.Rand, maxN int) core.Case {
 		argChain = "B"
 		note(mutHist, "call: other chain")
 	case 1:
-		argBid = bidPool[r.Intn(len(bidPool))]
+		argBid = pickBid(r)
 		note(mutHist, "call: other block id")
 	case 2:
 		argH = h + 1
@@ -1124,7 +1186,7 @@ func genCase(r *rand.Rand, maxN int) core.Case {
 			case 1:
 				rd2 = rd + int32(1+r.Intn(2))
 			case 2:
-				b2 = bidPool[r.Intn(len(bidPool))]
+				b2 = pickBid(r)
 			}
 		}
 		note(mutHist, "same signature list relabelled (height/round/block) after the genuine commit")
@@ -1330,7 +1392,7 @@ func genLargeTrusted(r *rand.Rand, maxN int) core.Case {
 	for i := range tv {
 		tv[i] = val{poolAddr[keys[i]], keys[i], powers[i]}
 	}
-	chain, h, rd, b := "A", int64(1+r.Intn(5)), int32(r.Intn(2)), bidPool[r.Intn(len(bidPool))]
+	chain, h, rd, b := "A", int64(1+r.Intn(5)), int32(r.Intn(2)), pickBid(r)
 	k := 1 + r.Intn(m) // slots; mostly fewer than members
 	if r.Intn(5) == 0 {
 		k = m + r.Intn(3)
@@ -1386,6 +1448,9 @@ func genLargeTrusted(r *rand.Rand, maxN int) core.Case {
 	}
 	if dupAt >= 0 {
 		note(mutHist, "large trusted set: repeated signer")
+	}
+	if r.Intn(8) == 0 || (len(b.hash) == 0 && r.Intn(2) == 0) {
+		relabelSigned(r, slots, b)
 	}
 	vo := ""
 	if r.Intn(4) == 0 && protoSetOK(tv) {
@@ -1470,7 +1535,7 @@ func main() {
 			}
 			return false
 		},
-		Rule: "random validator sets (0..12 quick / 0..150 thorough validators, real ed25519 keys; equal, skewed, thirds-boundary, exactly-MaxTotalVotingPower, over-max, zero and negative powers; repo ordering or shuffled) with a commit built from real types.Commit/CommitSig whose slots are genuine signatures, nil votes or absent, then 0..3 mutations (flag, junk/empty/short/bit-flipped signature, signed over another chain/height/round/block/nil/timestamp/type/key, foreign or unknown address, duplicated slot, swap, length±1); the set and/or the commit optionally passed through ToProto -> wire bytes (with a falsified total_voting_power) -> FromProto; calls on ONE ValidatorSet object per `vals` line: VerifyCommit and VerifyCommitLight with matching or mismatching chain/block id/height, in shuffled order with repeats, then the same signature list relabelled to another height/round/block and verified again (and back, and with one slot changed); a stream of trusted sets LARGER than the commit whose slots are signed by members at low/middle/high positions with repeated signers, at the exact distinct-member level; VerifyCommitLightTrusting with fractions 1/3,2/3,1/2,1/1,0/1,x/0,3/2, exactly-at and just-below the boundary, numerator at the safeMul edge, parts >= 2^63, and again against an overlapping shuffled trusted set. Non-trivial = at least one verification call accepted; distinct by hash of the op list",
+		Rule: "random validator sets (0..12 quick / 0..150 thorough validators, real ed25519 keys; equal, skewed, thirds-boundary, exactly-MaxTotalVotingPower, over-max, zero and negative powers; repo ordering or shuffled) with a commit built from real types.Commit/CommitSig whose slots are genuine signatures, nil votes or absent, then block ids of all four shapes (hash empty/non-empty x part-set header zero/non-zero) for the commit, the call and what was really signed; whole-commit relabellings (every for-block slot really signed NIL, nil-flagged slots really signed the block, signatures over a block id sharing only parts); then 0..3 mutations (flag, junk/empty/short/bit-flipped signature, signed over another chain/height/round/block/nil/timestamp/type/key, foreign or unknown address, duplicated slot, swap, length±1); the set and/or the commit optionally passed through ToProto -> wire bytes (with a falsified total_voting_power) -> FromProto; calls on ONE ValidatorSet object per `vals` line: VerifyCommit and VerifyCommitLight with matching or mismatching chain/block id/height, in shuffled order with repeats, then the same signature list relabelled to another height/round/block and verified again (and back, and with one slot changed); a stream of trusted sets LARGER than the commit whose slots are signed by members at low/middle/high positions with repeated signers, at the exact distinct-member level; VerifyCommitLightTrusting with fractions 1/3,2/3,1/2,1/1,0/1,x/0,3/2, exactly-at and just-below the boundary, numerator at the safeMul edge, parts >= 2^63, and again against an overlapping shuffled trusted set. Non-trivial = at least one verification call accepted; distinct by hash of the op list",
 		Assumptions: []string{
 			"ed25519 is modelled as a predicate sigOK(key, signBytes, sig); the stream describes each signature by what it was really made over and the driver's sigOK compares that with the sign-bytes record the model computes (so a canonical encoding that dropped a field would show as a disagreement and an oracle failure)",
 			"protobuf encoding of the canonical vote is not modelled: the sign-bytes record (type, height, round, canonical block id, timestamp, chain id) is assumed injectively encoded",
